@@ -558,6 +558,7 @@ static void plain_access (void *addr, int size, int is_write) {
 		}
 		return;
 	}
+	if (!o->live && o->kind == K_NW && o->owner == cur) { return; } /* the owner re-using its own stack slot in a later call */
 	if (!o->live && cfg.check_plain) {
 		vf_violation ("dead-object", "plain %s of reclaimed object %s+%ld", is_write ? "write" : "read", o->name, (long) ((char *) addr - o->base));
 	}
